@@ -1022,6 +1022,7 @@ SEQ = [
     ('py4hw/logic/storage.py', 'SynchronousMemory', 'clock', 'clock'),
     ('py4hw/logic/storage.py', 'DualPortSynchronousMemory', 'clock', 'clock'),
     ('py4hw/logic/clock.py', 'AutoReset', 'clock', 'clock'),
+    ('py4hw/logic/simulation.py', 'Sequence', 'clock', 'clock'),
     ('py4hw/logic/protocol/uart/serdes.py', 'UARTSerializer', 'clock', 'clock'),
     ('py4hw/logic/protocol/uart/serdes.py', 'UARTDeserializer', 'clock', 'clock'),
     ('py4hw/logic/protocol/uart/clock.py', 'ClockSyncFSM', 'clock', 'clock'),
